@@ -118,8 +118,7 @@ class World:
         return self
 
     # ---- binding
-    @staticmethod
-    def _bind(fnode, args, kwargs, skip_self):
+    def _bind(self, fnode, args, kwargs, skip_self):
         a = fnode.args
         pos = [x.arg for x in a.posonlyargs + a.args]
         if skip_self and pos and pos[0] in ("self", "cls"):
@@ -138,6 +137,20 @@ class World:
             return None
 
         for name, d in defaults.items():
+            if isinstance(d, (ast.Dict, ast.List, ast.Set)) or (isinstance(d, ast.Call) and A.dotted(d.func) in ("dict", "list", "set") and not d.args and not d.keywords):
+                # a MUTABLE default is one object, created when the function is defined and shared by every call that omits the argument
+                store = self.__dict__.setdefault("_mutable_defaults", {})
+                key = (id(fnode), name)
+                if key not in store:
+                    cv = A.const_value(d)
+                    store[key] = conv(cv) if isinstance(cv, list) else ({} if isinstance(d, ast.Dict) or A.dotted(getattr(d, "func", None)) == "dict" else (set() if isinstance(d, ast.Set) or A.dotted(getattr(d, "func", None)) == "set" else []))
+                    if isinstance(d, ast.Dict) and d.keys:
+                        try:
+                            store[key] = {A.const_value(k_): conv(A.const_value(v_)) for k_, v_ in zip(d.keys, d.values)}
+                        except Exception:  # noqa: BLE001
+                            store[key] = {}
+                env[name] = store[key]
+                continue
             env[name] = conv(A.const_value(d))
         if len(args) > len(pos) and not a.vararg:
             raise Undecided(f"too many positional arguments for {getattr(fnode, 'name', '?')}")
